@@ -38,7 +38,7 @@ HARD_ERRNOS = {
     "open_w": [E.EACCES, E.ENOSPC, E.EROFS, E.EISDIR, E.EMFILE],
     "read": [E.EIO],
     "fwrite": [E.ENOSPC, E.EIO, E.EDQUOT],
-    "pwrite": [E.EPIPE],
+    "pwrite": [],     # EPIPE is a consequence of what the backend does (scripts `read=none|N`), never an independent fault
     "mkdir": [E.EACCES, E.ENOSPC, E.EROFS],
     "pipe": [E.EMFILE, E.ENFILE],
     "spawn": [E.EAGAIN, E.ENOMEM, E.ENOENT, E.EACCES],
@@ -457,7 +457,9 @@ def model_expect_zero(sc, calls):
     """Reference model: exit status 0 iff everything the run needed worked."""
     if not sc["config_ok"] or not sc["inputs_ok"] or not sc["compile_ok"]:
         return False, "bad_input"
-    required_failed = [c for c in calls if c["failed"] and c["cls"] in ("open", "read", "fwrite", "pwrite", "pipe", "spawn")]
+    # (a failed write into the backend's stdin is not among them: a pipe write fails only because the
+    # backend stopped reading, and whether that is a failure is for the backend's exit status to say)
+    required_failed = [c for c in calls if c["failed"] and c["cls"] in ("open", "read", "fwrite", "pipe", "spawn")]
     if required_failed:
         return False, "io_failed:%s" % required_failed[0]["cls"]
     for c in calls:
